@@ -287,7 +287,17 @@ def views_file(draw):
             lvars.append([n, draw(vnum(1, tuple(gnames) + tuple(lnames[:i])))])
         # filters may use ANY name of the pool: an undefined or leaked name must make the view unevaluable / not change its meaning
         usable = tuple(draw(st.sampled_from([tuple(gnames) + tuple(lnames), tuple(VAR_NAMES)])))
-        views.append({'name': vn, 'vars': lvars, 'filter': draw(vbool(2, usable))})
+        flt = draw(vbool(2, usable))
+        if draw(st.integers(0, 3)) == 0:
+            # a chain of view-local variables, each built on the previous one; the filter names only the last
+            depth = draw(st.integers(3, 4))
+            chain = [['step1', draw(vnum(1, tuple(gnames)))]]
+            for k in range(2, depth + 1):
+                chain.append([f'step{k}', ['bin', draw(st.sampled_from(['+', '-', '*'])), ['var', f'step{k - 1}'], ['num', draw(st.sampled_from(NUMS))]]])
+            lvars = lvars + chain
+            last = ['cmp', ['var', f'step{depth}'], [[draw(st.sampled_from(['>', '<=', '>='])), ['num', draw(st.sampled_from(NUMS))]]]]
+            flt = draw(st.sampled_from([last, ['and', [last, flt]], ['or', [flt, last]]]))
+        views.append({'name': vn, 'vars': lvars, 'filter': flt})
     return {'globals': globals_, 'views': views}
 
 
